@@ -17,6 +17,11 @@ struct access {
     for (unsigned d = 0; d <= SQUIDS_MAX_HILBERT_DIM; d++)
       SU_vector::storage_cache[d].verif_for_each([&out](const SU_vector::mem_cache_entry& e) { out.push_back(e.storage - e.offset); });
   }
+  // the (aligned) storage pointers of the cached blocks, i.e. what a vector's `components` would equal
+  static void cached_storage(std::vector<const void*>& out) {
+    for (unsigned d = 0; d <= SQUIDS_MAX_HILBERT_DIM; d++)
+      SU_vector::storage_cache[d].verif_for_each([&out](const SU_vector::mem_cache_entry& e) { out.push_back(e.storage); });
+  }
 };
 }}  // namespace squids::verif
 
